@@ -47,9 +47,14 @@ INVARIANTS = ["TypeOK", "ObsFaithful", "SensitiveNeverStored", "NoSecretValue", 
 PROPERTIES = ["Immutable"]
 
 
+VIAS_ALL = ("handler", "wire", "stream", "chunked")
+SHAPES_ALL = ("single", "after", "before", "middle")
+
+
 def params(pcs=PCS_ALL, hcs=HCS_ALL, srcs=("ingress", "publish"), bes=("memory", "sqlite"), modes=("pull", "push"),
-           vias=("handler", "wire"), star=False, free=False, maxdeq=2, maxatt=2, maxrs=1, minend=0, tour=False):
-    consts = {"Srcs": set(srcs), "PCs": set(pcs), "HCs": set(hcs), "Bes": set(bes), "ModesC": set(modes), "Vias": set(vias)}
+           vias=VIAS_ALL, shapes=SHAPES_ALL, star=False, free=False, maxdeq=2, maxatt=2, maxrs=1, minend=0, tour=False):
+    consts = {"Srcs": set(srcs), "PCs": set(pcs), "HCs": set(hcs), "Bes": set(bes), "ModesC": set(modes), "Vias": set(vias),
+              "Shapes": set(shapes)}
     plain = {"Star": star, "CentrePC": "text", "CentreHC": "plain", "FreeRoute": free, "MaxDeq": maxdeq, "MaxAtt": maxatt,
              "MaxRs": maxrs, "MinEnd": minend, "UseTour": tour}
     return consts, plain
@@ -163,9 +168,10 @@ def validate(ctx, files, tag):
 
 PAYLOAD_CHECKS = {"payload", "encoding", "dump_payload", "stored_payload", "oversize", "companion"}
 HEADER_CHECKS = {"headers", "dump_headers", "stored_headers", "sensitive", "dump_sensitive", "stored_sensitive", "pushhdr",
-                 "persisted_secret"}
+                 "persisted_secret", "dump_trace", "stored_trace", "sibling", "stored_sibling"}
 STORE_CHECKS = {"dump_count", "dump_payload", "dump_headers", "dump_sensitive", "stored_count", "stored_payload", "stored_headers",
-                "stored_sensitive", "refused_not_stored", "emptystore", "persisted_secret"}
+                "stored_sensitive", "refused_not_stored", "emptystore", "persisted_secret", "dump_trace", "stored_trace", "sibling",
+                "stored_sibling"}
 
 
 def journey_of(events, line):
@@ -190,6 +196,8 @@ def signature(check, e, start):
         channel = "push"
     else:
         channel = ev.lower()
+    if check in ("sibling", "stored_sibling", "dump_trace", "stored_trace"):
+        return "fidelity/%s/%s/%s.%s" % (check, channel, c.get("pb", "single"), c["hc"])
     if check == "companion":
         return "fidelity/companion/%s/batch-%s" % (channel, c["be"])
     if check in HEADER_CHECKS:
@@ -309,12 +317,12 @@ def tally(ctx, files):
     """Counters over what the real runs actually did."""
     C = collections.Counter()
     for f in files:
-        cur, after_restart, after_expire, pushes = None, False, False, 0
+        cur, after_restart, after_expire, pushes, after_op = None, False, False, 0, ""
         for line in open(f):
             e = json.loads(line)
             ev = e["ev"]
             if ev == "Start":
-                cur, after_restart, after_expire, pushes = e["c"], False, False, 0
+                cur, after_restart, after_expire, pushes, after_op = e["c"], False, False, 0, ""
                 cur["_recv"] = e["recv"]
                 C["journeys"] += 1
                 continue
@@ -322,6 +330,14 @@ def tally(ctx, files):
             if ev == "Submit":
                 ok = 200 <= e["r"]["status"] <= 299
                 C["submit/%s/%s" % (c["src"], "accepted" if ok else "refused")] += 1
+                if c["src"] == "ingress":
+                    C["framing/%s/%s/%s" % (c["via"], c["pc"], "accepted" if ok else "refused")] += 1
+                elif ok:
+                    C["pubshape/%s/%s" % (c.get("pb"), c["be"])] += 1
+                    if c.get("pb") in ("after", "middle") and c["hc"] == "none":
+                        C["pub_bare_after_headers/%s" % c["be"]] += 1
+                    if c.get("pb") in ("before", "middle") and c["hc"] != "none":
+                        C["pub_headers_before_bare/%s" % c["be"]] += 1
                 if not ok:
                     C["refused/%s" % (c["pc"] if c["pc"] in OVER_PCS else c["hc"])] += 1
                     if not e["dump"]:
@@ -329,7 +345,7 @@ def tally(ctx, files):
                 else:
                     C["accepted/pc/%s" % c["pc"]] += 1
                     C["accepted/hc/%s" % c["hc"]] += 1
-                    if c["via"] == "wire":
+                    if c["via"] in ("wire", "chunked"):
                         for fl in c["_recv"]:
                             if fl["n"] in ("authorization", "proxy-authorization", "cookie"):
                                 C["sensitive/%s/%s" % (fl["n"], fl["c"])] += 1
@@ -345,6 +361,8 @@ def tally(ctx, files):
                     C["obs_src/%s/%s" % (c["src"], ch)] += 1
                     if after_restart:
                         C["observed_after_restart"] += 1
+                    if after_op:
+                        C["obs_after/%s/%s/%s" % (after_op, ch, c["be"])] += 1
                     if ev in ("Deq", "Push"):
                         b = e["a"].get("b", "one")
                         if b == "pair" and e["r"]["k"]["n"] < 1:
@@ -376,7 +394,19 @@ def tally(ctx, files):
                 if e["r"]["n"] == 1:
                     C["dlq_requeue"] += 1
             elif ev == "LeaseOp":
-                C["leaseop/%s/%s" % (e["a"]["kind"], e["a"]["ch"])] += 1
+                C["leaseop/%s/%s/%s" % (e["a"]["kind"], e["a"]["ch"], e["a"].get("form", "single"))] += 1
+            elif ev == "Extend":
+                if e["r"]["ok"]:
+                    C["lease_extended/%s" % e["a"]["ch"]] += 1
+            elif ev in ("Cancel", "Resume", "RequeueMsg"):
+                if e["r"]["n"] == 1:
+                    C["operator/%s/%s/%s" % (ev, e["a"]["form"], c["be"])] += 1
+                    if ev == "Cancel":
+                        C["cancel_from/%s" % e["a"].get("from")] += 1
+                    else:
+                        after_op = "cancel+" + ev if after_op == "Cancel" else after_op
+                    if ev == "Cancel":
+                        after_op = "Cancel"
             elif ev == "Scan":
                 if e["r"]["secrets"] > 0:
                     C["scan_with_secrets/%s" % c["be"]] += 1
@@ -404,6 +434,18 @@ def non_vacuity(ctx, C, pcs):
     require(C, ["batch/%s/%s/%s" % (b, ch, be) for be in ("memory", "sqlite") for (b, ch) in
                 (("one", "http"), ("one", "grpc"), ("alone", "http"), ("alone", "inproc"), ("pair", "http"), ("pair", "grpc"),
                  ("pair", "inproc"), ("alone", "push"), ("pair", "push"))], "store read path (batch 1 / batch alone / batch pair)")
+    require(C, ["operator/%s/%s/%s" % (o, f, be) for o in ("Cancel", "Resume", "RequeueMsg") for f in ("id", "filter")
+                for be in ("memory", "sqlite")], "operator cancel / resume / requeue by id and by filter")
+    require(C, ["obs_after/cancel+%s/%s/%s" % (o, ch, be) for o in ("Resume", "RequeueMsg") for ch in ("http", "grpc", "push")
+                for be in ("memory", "sqlite")], "delivery after cancel + resume / requeue")
+    require(C, ["cancel_from/queued", "cancel_from/leased", "cancel_from/dead", "lease_extended/http", "lease_extended/grpc"]
+            + ["leaseop/%s/%s/%s" % (k, ch, f) for k in ("ack", "nack", "dead") for ch in ("http", "grpc") for f in ("single", "batch")
+               if not (k == "ack" and ch == "grpc")], "lease operation forms")
+    require(C, ["framing/%s/%s/accepted" % (v, p) for v in ("stream", "chunked", "wire", "handler") for p in ("empty", "maxm1", "max", "big")]
+            + ["framing/%s/maxp1/refused" % v for v in ("stream", "chunked", "wire", "handler")], "body framing x size class")
+    require(C, ["pubshape/%s/%s" % (p, be) for p in SHAPES_ALL for be in ("memory", "sqlite")]
+            + ["pub_bare_after_headers/%s" % be for be in ("memory", "sqlite")]
+            + ["pub_headers_before_bare/%s" % be for be in ("memory", "sqlite")], "publish batch shapes")
     require(C, ["restart_with_message", "observed_after_restart", "redelivered_pull", "redelivered_push", "redelivered_after_expiry",
                 "lease_expired", "dlq_requeue", "push_after_dlq_requeue", "inproc_result_scribbled", "copy_collision",
                 "forward_auth_called", "refused_nothing_stored", "scan_with_secrets/sqlite", "scan_with_secrets/memory"],
@@ -441,20 +483,23 @@ def run(ctx):
     jobs = []
     if quick:
         jobs.append(("mc", lambda: run_mc(ctx, "all-inputs", pcs=PCS_ALL, maxdeq=2, maxatt=2, maxrs=1, workers=w)))
-        jobs.append(("tour", lambda: gen(ctx, "tour", "tour", pcs=pcs, star=True, maxdeq=7, maxatt=5, maxrs=2, workers=4)))
-        jobs.append(("edges", lambda: gen(ctx, "edges", "edges", pcs=["all256"], hcs=["plain", "sensmix"], vias=["handler"],
-                                          maxdeq=2, maxatt=2, maxrs=1, workers=4)))
-        jobs.append(("sim", lambda: gen(ctx, "sim", "sim", depth=14, simulate=150, pcs=pcs, free=True, maxdeq=8, maxatt=8, maxrs=3,
+        jobs.append(("tour", lambda: gen(ctx, "tour", "tour", pcs=pcs, star=True, maxdeq=9, maxatt=7, maxrs=3, workers=4)))
+        jobs.append(("edges", lambda: gen(ctx, "edges", "edges", pcs=["all256"], hcs=["sensmix"], srcs=["ingress"], vias=["handler"],
+                                          shapes=["single"], maxdeq=2, maxatt=2, maxrs=1, workers=4)))
+        jobs.append(("sim", lambda: gen(ctx, "sim", "sim", depth=14, simulate=100, pcs=pcs, free=True, maxdeq=8, maxatt=8, maxrs=3,
                                         minend=3)))
     else:
         jobs.append(("mc", lambda: run_mc(ctx, "all-inputs-free", pcs=PCS_ALL, free=True, maxdeq=3, maxatt=3, maxrs=2, timeout=1500,
                                           workers=w)))
-        jobs.append(("tour", lambda: gen(ctx, "tour", "tour", pcs=pcs, star=False, free=True, maxdeq=7, maxatt=5, maxrs=2, workers=4,
+        jobs.append(("tour", lambda: gen(ctx, "tour", "tour", pcs=pcs, star=False, free=False, maxdeq=9, maxatt=7, maxrs=3, workers=4,
                                          timeout=1500)))
-        jobs.append(("edges", lambda: gen(ctx, "edges", "edges", pcs=["empty", "all256", "max", "big"],
-                                          hcs=["plain", "sensmix", "collide", "values2", "hmax"], maxdeq=2, maxatt=2, maxrs=1, workers=4,
-                                          timeout=1500)))
-        jobs.append(("sim", lambda: gen(ctx, "sim", "sim", depth=24, simulate=3000, pcs=pcs, free=True, maxdeq=12, maxatt=12, maxrs=4,
+        jobs.append(("tourfree", lambda: gen(ctx, "tourfree", "tour", pcs=["text", "all256", "empty", "max"],
+                                             hcs=["none", "plain", "sensmix", "repcase", "values2", "collide", "hmax"], star=False, free=True,
+                                             maxdeq=9, maxatt=7, maxrs=3, workers=4, timeout=1500)))
+        jobs.append(("edges", lambda: gen(ctx, "edges", "edges", pcs=["empty", "all256", "max"], hcs=["none", "plain", "sensmix", "collide"],
+                                          vias=["handler", "chunked"], shapes=["single", "middle"], maxdeq=2, maxatt=2, maxrs=1,
+                                          workers=4, timeout=1500)))
+        jobs.append(("sim", lambda: gen(ctx, "sim", "sim", depth=24, simulate=2000, pcs=pcs, free=True, maxdeq=12, maxatt=12, maxrs=4,
                                         minend=4, timeout=1500)))
     with cf.ThreadPoolExecutor(max_workers=len(jobs)) as ex:
         futs = [(tag, ex.submit(fn)) for tag, fn in jobs]
